@@ -4,7 +4,7 @@ CONSTANTS
   NRegs = 3
   BaseSeq <- CatSeq
   BaseEq <- CatEq
-  Scales <- S_Wide
+  Scales <- S_Quick
   MaxLen = 6
   Queries <- Q_All
   TerminalQueries = TRUE
